@@ -7,6 +7,7 @@ import collections
 import hashlib
 import io
 import os
+import random
 import shutil
 import tempfile
 import zlib
@@ -477,6 +478,39 @@ def _open_table(rng, st, name):
     return f, (lambda: (st.open_file(name), st.file_length(name) - pre, pre)), pre
 
 
+def _compare_map(ctx, hr, ht, items, model, probe, w, tag=""):
+    """The map oracle: the reader `hr` of a hash file written from `items` (in that order) against
+    model = {key: [values in insertion order]}; keyed access is probed with every key of `probe`."""
+    for k in probe:
+        got = list(hr.all(k))
+        if sorted(got) != sorted(model.get(k, [])):
+            ctx.fail("hash", "all(ht=%d)%s" % (ht, tag), dict(w, key=k), "got %d values expected %d" % (len(got), len(model.get(k, []))))
+        if (k in hr) != (k in model):
+            ctx.fail("hash", "contains(ht=%d)%s" % (ht, tag), dict(w, key=k))
+        if k in model:
+            if hr[k] not in model[k]:
+                ctx.fail("hash", "getitem(ht=%d)%s" % (ht, tag), dict(w, key=k))
+            if hr.get(k, b"?") not in model[k]:
+                ctx.fail("hash", "get(ht=%d)%s" % (ht, tag), dict(w, key=k))
+        else:
+            if hr.get(k, b"?") != b"?":
+                ctx.fail("hash", "get-absent(ht=%d)%s" % (ht, tag), dict(w, key=k))
+            try:
+                hr[k]
+                ctx.fail("hash", "getitem-absent-no-KeyError(ht=%d)%s" % (ht, tag), dict(w, key=k))
+            except KeyError:
+                pass
+        ctx.count("hash.lookups")
+    if list(hr.items()) != items:
+        ctx.fail("hash", "items(ht=%d)%s" % (ht, tag), w)
+    if list(hr) != items:
+        ctx.fail("hash", "iter(ht=%d)%s" % (ht, tag), w)
+    if list(hr.keys()) != [k for k, _ in items]:
+        ctx.fail("hash", "keys(ht=%d)%s" % (ht, tag), w)
+    if list(hr.values()) != [v for _, v in items]:
+        ctx.fail("hash", "values(ht=%d)%s" % (ht, tag), w)
+
+
 def hash_case(ctx, rng):
     from whoosh.filedb.filestore import RamStorage
     from whoosh.filedb.filetables import HashWriter, HashReader
@@ -535,37 +569,159 @@ def hash_case(ctx, rng):
         for k, v in items:
             model.setdefault(k, []).append(v)
         probe = list(model)[:40] + list(model)[-10:] + [rb(rng, rng.choice([0, 1, 2, 9])) for _ in range(10)]
-        for k in probe:
-            got = list(hr.all(k))
-            if sorted(got) != sorted(model.get(k, [])):
-                ctx.fail("hash", "all(ht=%d)" % ht, dict(w, key=k), "got %d values expected %d" % (len(got), len(model.get(k, []))))
-            if (k in hr) != (k in model):
-                ctx.fail("hash", "contains(ht=%d)" % ht, dict(w, key=k))
-            if k in model:
-                if hr[k] not in model[k]:
-                    ctx.fail("hash", "getitem(ht=%d)" % ht, dict(w, key=k))
-                if hr.get(k, b"?") not in model[k]:
-                    ctx.fail("hash", "get(ht=%d)" % ht, dict(w, key=k))
-            else:
-                if hr.get(k, b"?") != b"?":
-                    ctx.fail("hash", "get-absent(ht=%d)" % ht, dict(w, key=k))
-                try:
-                    hr[k]
-                    ctx.fail("hash", "getitem-absent-no-KeyError(ht=%d)" % ht, dict(w, key=k))
-                except KeyError:
-                    pass
-            ctx.count("hash.lookups")
-        if list(hr.items()) != items:
-            ctx.fail("hash", "items(ht=%d)" % ht, w)
-        if list(hr) != items:
-            ctx.fail("hash", "iter(ht=%d)" % ht, w)
-        if list(hr.keys()) != [k for k, _ in items]:
-            ctx.fail("hash", "keys(ht=%d)" % ht, w)
-        if list(hr.values()) != [v for _, v in items]:
-            ctx.fail("hash", "values(ht=%d)" % ht, w)
+        _compare_map(ctx, hr, ht, items, model, probe, w)
         hr.close()
     ctx.guard("hash", w, body)
     return ("hash", ht, n, style, info.get("off")), n > 0, w
+
+
+# ---- keys whose FULL 32-bit hash values are equal (a table slot stores the hash value: the reader must tell such
+# keys apart by length and bytes, and must go on probing past a slot whose hash matches but whose key does not)
+
+_POOLS = {}
+_POOL_LENS = (2, 3, 4, 5, 6, 6, 6, 6, 7, 8, 9, 13)   # half the keys share one length => same-length collisions too
+
+
+def _collision_pool(seed, ht):
+    """Birthday search (cached per process; a pure function of (seed, hashtype), so a replayed case sees the same
+    pool) over random byte keys of varied length for sets of distinct keys with one 32-bit value of hash function
+    `ht`. -> {"diff": [[keys of >= 2 different lengths]...], "same": [[keys of one length]...],
+              "mates": {bucket: [ordinary keys of that bucket]}, "tried": n}"""
+    pool = _POOLS.get((seed, ht))
+    if pool is not None:
+        return pool
+    r = random.Random("C20:equal-hash-pool:%d:%d" % (seed, ht))
+    seen, groups, n = {}, {}, 0
+    nl = len(_POOL_LENS)
+    while True:
+        for i in range(100000):
+            ln = _POOL_LENS[i % nl]
+            k = r.getrandbits(8 * ln).to_bytes(ln, "big")
+            h = _model_hash(ht, k)
+            o = seen.setdefault(h, k)
+            if o is not k and o != k:
+                g = groups.setdefault(h, [o])
+                if k not in g:
+                    g.append(k)
+        n += 100000
+        diff = [g for g in groups.values() if len(set(len(k) for k in g)) > 1]
+        same = [g for g in groups.values() if len(set(len(k) for k in g)) == 1]
+        if (n >= 200000 and len(diff) >= 3 and same) or n >= 800000:
+            break
+    mates = collections.defaultdict(list)
+    need = 256
+    for h, k in seen.items():
+        m = mates[h & 255]
+        if len(m) < 16 and h not in groups:
+            m.append(k)
+            if len(m) == 16:
+                need -= 1
+                if not need:
+                    break
+    pool = {"diff": diff[:200], "same": same[:200], "mates": mates, "tried": n}
+    _POOLS[(seed, ht)] = pool
+    return pool
+
+
+def equalhash_case(ctx, rng):
+    """Hash files (HashWriter with each hash type, OrderedHashWriter) holding 1..3 sets of keys with EQUAL full 32-bit
+    hash values - different or equal lengths, every insertion order, one member left out (an absent key whose hash
+    value is in the table) or stored twice - among 0..150 ordinary keys (random, or of the same bucket), against the
+    same map oracle as hash_case (plus closest_key/keys_from on the ordered variant)."""
+    from whoosh.filedb.filestore import RamStorage
+    from whoosh.filedb.filetables import HashWriter, HashReader, OrderedHashWriter, OrderedHashReader
+    st = RamStorage()
+    ordered = rng.random() < 0.3
+    ht = 0 if ordered else rng.choice([0, 1, 2])   # OrderedHashWriter always uses hash type 0
+    pool = _collision_pool(ctx.seed, ht)
+    coll, left_out, sig, used = [], [], [], set()
+    for _ in range(rng.choice([1, 1, 2, 3])):
+        src = pool["diff"] if (rng.random() < 0.7 or not pool["same"]) else pool["same"]
+        if not src:
+            continue
+        g = list(rng.choice(src))
+        if g[0] in used:
+            continue
+        used.add(g[0])
+        rng.shuffle(g)
+        mode = rng.choice(["all", "all", "all", "leave-one-out", "twice"])
+        if mode == "leave-one-out":
+            left_out.append(g.pop(rng.randrange(len(g))))
+        elif mode == "twice" and not ordered:
+            g.insert(rng.randrange(len(g) + 1), rng.choice(g))
+        coll.append(g)
+        sig.append((tuple(len(k) for k in g), mode))
+    nf = rng.choice([0, 2, 20, 150])
+    fstyle = rng.choice(["random", "bucket"])
+    if fstyle == "bucket" and coll:
+        fill = list(pool["mates"].get(_model_hash(ht, coll[0][0]) & 255, []))[:nf]
+    else:
+        fill = [rb(rng, rng.choice([0, 1, 2, 3, 8])) for _ in range(nf)]
+    flat = [k for g in coll for k in g]
+    at = sorted(rng.randrange(len(fill) + 1) for _ in flat)
+    keys = list(fill)
+    for pos, k in reversed(list(zip(at, flat))):
+        keys.insert(pos, k)
+    if ordered:
+        keys = sorted(set(keys))
+    items = [(k, b"%d|" % i + rb(rng, rng.choice([0, 1, 5, 300]))) for i, k in enumerate(keys)]
+    model = collections.OrderedDict()
+    for k, v in items:
+        model.setdefault(k, []).append(v)
+    probe = []
+    for k in flat + left_out + fill[:15] + fill[-5:] + [rb(rng, rng.choice([0, 1, 2, 9])) for _ in range(5)]:
+        if k not in probe:
+            probe.append(k)
+    w = {"kind": "equal-hash", "hashtype": ht, "writer": "OrderedHashWriter" if ordered else "HashWriter",
+         "equal_hash_keys_in_insertion_order": [[k for k in model if k in g] for g in coll] if ordered else coll,
+         "left_out": left_out, "n_other_keys": len(fill), "other_keys": fstyle}
+    # reach counters (by the independent restatement of the hash functions)
+    ctx.count("hash.equalhash.cases")
+    ctx.count("hash.equalhash.ht%d" % ht)
+    if ordered:
+        ctx.count("hash.equalhash.ordered")
+    first_of = {}
+    for k in model:
+        first_of.setdefault(_model_hash(ht, k), []).append(k)
+    later = 0
+    for ks in first_of.values():
+        for i, k in enumerate(ks[1:], 1):
+            if k in probe:
+                later += 1
+                if any(len(p) != len(k) for p in ks[:i]):
+                    ctx.count("hash.equalhash.lookup_after_other_length")
+                if any(len(p) == len(k) for p in ks[:i]):
+                    ctx.count("hash.equalhash.lookup_after_same_length")
+    for k in probe:
+        if k not in model and _model_hash(ht, k) in first_of:
+            ctx.count("hash.equalhash.absent_with_stored_hash")
+    info = {}
+
+    def body():
+        f, reopen, off = _open_table(rng, st, "e")
+        info["off"] = off
+        w["offset"] = off
+        hw = OrderedHashWriter(f) if ordered else HashWriter(f, hashtype=ht)
+        if rng.random() < 0.5:
+            for k, v in items:
+                hw.add(k, v)
+        else:
+            hw.add_all(items)
+        hw.close()
+        f, length, start = reopen()
+        hr = (OrderedHashReader if ordered else HashReader)(f, length, startoffset=start)
+        _compare_map(ctx, hr, ht, items, model, probe, w, tag=":equal-hash" + (":ordered" if ordered else ""))
+        if ordered:
+            for p in probe:
+                exp = [k for k in keys if k >= p]
+                got = hr.closest_key(p)
+                if got != (exp[0] if exp else None):
+                    ctx.fail("ordered", "closest_key:equal-hash", dict(w, probe=p), "got %r expected %r" % (got, exp[:1]))
+                if list(hr.keys_from(p)) != exp:
+                    ctx.fail("ordered", "keys_from:equal-hash", dict(w, probe=p))
+        hr.close()
+    ctx.guard("hash", w, body)
+    return ("equal-hash", ht, ordered, tuple(sig), nf, fstyle, info.get("off")), later > 0, w
 
 
 def ordered_case(ctx, rng):
@@ -977,7 +1133,13 @@ def run(ctx):
     bag = []
     for fn, wt in KINDS:
         bag += [fn] * wt
-    for idx in ctx.cases(quick=1500, thorough=12000):
+    # one case in 19 (by index alone, so that the draws of all the other cases are what they were) is an
+    # equal-hash table case drawn from its own labelled stream
+    for idx in ctx.cases(quick=1580, thorough=12640):
+        if idx % 19 == 7:
+            shape, nontrivial, w = equalhash_case(ctx, ctx.rng(idx, "equal-hash"))
+            ctx.case(shape, nontrivial, sample=w if idx % 97 == 0 else None)
+            continue
         rng = ctx.rng(idx)
         fn = rng.choice(bag)
         if fn is idset_program:
